@@ -7,6 +7,8 @@ OpsQuick ==
         c \in {"none", "pre", "suf"}, cv \in {9, 0}, a \in {"none", "arg"}, av \in {92, 0}, aw \in {8}, al \in BOOLEAN, aen \in {"def", "little"} }
     \cup { O(c, 6, 4, "arg", 2652, 12, al, aen) : c \in {"none", "pre", "suf"}, al \in BOOLEAN, aen \in {"def", "big", "little"} }
     \cup { O(c, 5, 3, "arg", -2, 5, FALSE, "def") : c \in {"pre", "suf"} }
+    \* code-only operands whose low code bits have their top bit set (0110, 1110): as a composite code the index part is a negative number
+    \cup { O(c, cv, 4, "none", 92, 8, FALSE, "def") : c \in {"pre", "suf"}, cv \in {6, 14} }
     \cup { O("none", 9, 4, a, av, 8, al, "def") : a \in {"rel", "relend"}, av \in {-3, 92}, al \in BOOLEAN }
     \cup { O("none", 9, 4, a, -700, 12, FALSE, aen) : a \in {"rel", "relend"}, aen \in {"def", "little"} }
     \cup { O("none", 9, 4, "slice", 2652, 12, al, aen) : al \in BOOLEAN, aen \in {"def", "little"} }
